@@ -39,6 +39,9 @@ pub struct Ctx {
     cases: BufWriter<File>,
     imp: BufWriter<File>,
     oracle: BufWriter<File>,
+    /// the request that is being executed right now (read by the orchestrator if the process dies)
+    pending: File,
+    dir: String,
     pub n: u64,
     pub stats: BTreeMap<String, u64>,
     exec: Exec,
@@ -71,6 +74,8 @@ impl Ctx {
             scale,
             shard,
             nshards,
+            pending: File::create(format!("{dir}/pending.txt")).expect("create output"),
+            dir: dir.to_string(),
             cases: f("cases.txt"),
             imp: f("impl.txt"),
             oracle: f("oracle.txt"),
@@ -118,8 +123,13 @@ impl Ctx {
     /// generator-side work that drives the real code (schedule exploration): while it runs, `line` is the
     /// request the watchdog records if the implementation blocks
     pub fn guard(&self, line: String) {
+        std::fs::write(self.pending_path(), &line).ok();
         self.timeout_ms.store(self.case_timeout.as_millis() as u64, Ordering::SeqCst);
         *self.current.lock().unwrap() = Some((Instant::now(), line));
+    }
+
+    fn pending_path(&self) -> String {
+        format!("{}/pending.txt", self.dir)
     }
 
     pub fn unguard(&self) {
@@ -138,6 +148,12 @@ impl Ctx {
         self.cases.flush().ok();
         self.imp.flush().ok();
         self.oracle.flush().ok();
+        {
+            use std::io::{Seek, SeekFrom};
+            self.pending.set_len(0).ok();
+            self.pending.seek(SeekFrom::Start(0)).ok();
+            self.pending.write_all(line.as_bytes()).ok();
+        }
         // an enclosing generator guard (schedule exploration) is re-armed after the case
         let outer = self.current.lock().unwrap().take();
         *self.current.lock().unwrap() = Some((Instant::now(), line.clone()));
